@@ -1534,3 +1534,29 @@ Qed.
 Theorem deterministic_proof : forall fuel fixed p given segs r1 r2,
   session fuel fixed p given segs = r1 -> session fuel fixed p given segs = r2 -> r1 = r2.
 Proof. intros. congruence. Qed.
+
+(* run = iterated steps, and further (guarded) steps leave the final state alone *)
+Theorem run_is_iterated_step_stable_proof : forall p e n f m mf,
+  complete n f true p e m = Ok mf ->
+  can_go mf = false /\ exists k, forall k', iter_step true p e (k + k') m = Ok mf.
+Proof.
+  intros p e n f m mf H. pose proof (complete_final p e n f true m mf H) as Hf. split; [assumption|].
+  destruct (run_is_iterated_step_proof p e n f m mf H) as [k Hk]. exists k. intro k'.
+  rewrite (iter_step_add _ _ _ _ _ _ _ Hk). apply iter_step_stuck. assumption.
+Qed.
+
+(* run mode does not depend on the patch at all *)
+Lemma exec_op_run_mode : forall fixed p e m bc, exec_op fixed false p e m bc = exec_op true false p e m bc.
+Proof. intros. unfold exec_op. reflexivity. Qed.
+
+Lemma exec_instr_run_mode : forall fixed p e t m, exec_instr fixed false p e t m = exec_instr true false p e t m.
+Proof. intros. unfold exec_instr. destruct (fetch_instr p m) as [[|]| |]; try reflexivity. Qed.
+
+Theorem run_mode_unpatched_proof : forall f fixed p e t m, internal_run f fixed false p e t m = internal_run f true false p e t m.
+Proof.
+  induction f as [|f IH]; intros; [reflexivity|]. rewrite !IR_S. rewrite exec_instr_run_mode.
+  destruct (depth m =? t); [reflexivity|].
+  destruct (segment_done p m) as [[|]| |]; try reflexivity.
+  - destruct (pop_incr m) as [[[|] m1]| |]; try reflexivity. apply IH.
+  - destruct (exec_instr true false p e t m) as [[[|] m1]| |]; try reflexivity. apply IH.
+Qed.
